@@ -148,35 +148,31 @@ Proof. destruct fp as [|? [|? [|? [|? [|? [|? ?]]]]]]; reflexivity. Qed.
 Lemma cw_len_cons {A} (l : list A) : (0 < length l)%nat -> exists a r, l = a :: r.
 Proof. destruct l; cbn; [lia|eauto]. Qed.
 
-Lemma cw_round6_shape ip fp : ip <> [] -> exists d i f0 f, cw_round6 ip fp = (d :: i, f0 :: f).
+Lemma cw_number_roundtrip_true : cw_src_number_roundtrip = true.
+Proof. reflexivity. Qed.
+
+Lemma cw_pad6_length fp : (6 <= length (cw_pad6 fp))%nat.
 Proof.
-  intros Hip. unfold cw_round6.
-  pose proof (cw_take6_length fp) as H6. set (f6 := cw_take6 fp 6) in *.
-  assert (Hipl : (0 < length ip)%nat) by (destruct ip; [congruence|cbn; lia]).
-  match goal with |- context [if ?b then _ else _] => destruct b end.
-  - pose proof (cw_incr_rev_length (rev f6)) as Lf. rewrite rev_length, H6 in Lf.
-    destruct (cw_incr_rev (rev f6)) as [f' c]. cbn [fst] in Lf.
-    destruct (cw_len_cons (rev f')) as (f0 & f & Ef); [rewrite rev_length; lia|].
-    destruct c.
-    + pose proof (cw_incr_rev_length (rev ip)) as Li. rewrite rev_length in Li.
-      destruct (cw_incr_rev (rev ip)) as [i' c']. cbn [fst] in Li.
-      destruct c'; [exists 1, (rev i'), f0, f; rewrite Ef; reflexivity|].
-      destruct (cw_len_cons (rev i')) as (d & i & Ei); [rewrite rev_length; lia|].
-      exists d, i, f0, f. rewrite Ei, Ef. reflexivity.
-    + destruct (cw_len_cons ip Hipl) as (d & i & Ei). exists d, i, f0, f. rewrite Ef, Ei. reflexivity.
-  - destruct (cw_len_cons ip Hipl) as (d & i & Ei). destruct (cw_len_cons f6) as (f0 & f & Ef); [lia|].
-    exists d, i, f0, f. rewrite Ei, Ef. reflexivity.
+  unfold cw_pad6. destruct (Nat.leb (length fp) 6) eqn:E; [rewrite cw_take6_length; lia|].
+  apply Nat.leb_gt in E. lia.
+Qed.
+
+Lemma cw_num_digits_shape ip fp : ip <> [] -> exists d i f0 f, cw_num_digits ip fp = (d :: i, f0 :: f).
+Proof.
+  intros Hip. unfold cw_num_digits, cw_num_digits_m. rewrite cw_number_roundtrip_true.
+  destruct ip as [|d i]; [congruence|]. pose proof (cw_pad6_length fp) as H.
+  destruct (cw_pad6 fp) as [|f0 f]; [cbn in H; lia|]. eauto.
 Qed.
 
 Definition cw_num_toks (neg : bool) (ip fp : list N) : list cw_tok :=
-  let '(i, f) := cw_round6 ip fp in
+  let '(i, f) := cw_num_digits ip fp in
   (if neg then [CwTP 45] else []) ++ [CwTNum (cw_norm_digits i) (cw_norm_digits f) []].
 
 Lemma cw_lex_number neg ip fp r : ip <> [] -> cw_sep_start r ->
   cw_L (cw_emit_number neg ip fp ++ r) = cw_oa (cw_num_toks neg ip fp) (cw_L r).
 Proof.
-  intros Hip Hs. unfold cw_emit_number, cw_num_toks.
-  destruct (cw_round6_shape ip fp Hip) as (d & i & f0 & f & ->).
+  intros Hip Hs. unfold cw_emit_number, cw_emit_number_m, cw_num_toks. fold cw_num_digits.
+  destruct (cw_num_digits_shape ip fp Hip) as (d & i & f0 & f & ->).
   assert (Hn : cw_L ((map cw_dchar (d :: i) ++ 46 :: map cw_dchar (f0 :: f)) ++ r) =
                cw_oc (CwTNum (cw_norm_digits (d :: i)) (cw_norm_digits (f0 :: f)) []) (cw_L r)).
   { apply cw_lex_tokp; [discriminate|]. rewrite <- app_assoc. cbn [app]. apply (cw_num_next d i f0 f r Hs). }
